@@ -63,7 +63,16 @@ func (m *hotReloadManager) startServer() error {
 
 // buildDevServer loads the current source file and builds the development
 // server (with live reload support) for it, without starting it.
-func (m *hotReloadManager) buildDevServer() (*http.Server, bool, error) {
+func (m *hotReloadManager) buildDevServer() (srv *http.Server, useCompiler bool, err error) {
+	// http.ServeMux panics on conflicting patterns (two WebSocket or static
+	// routes on one path, a route on a live reload endpoint). A reload runs on
+	// the watcher's timer goroutine, so that panic would end the process.
+	defer func() {
+		if r := recover(); r != nil {
+			srv, err = nil, fmt.Errorf("failed to register routes: %v", r)
+		}
+	}()
+
 	// Read source file
 	source, err := os.ReadFile(m.filePath)
 	if err != nil {
@@ -110,7 +119,7 @@ func (m *hotReloadManager) buildDevServer() (*http.Server, bool, error) {
 		return nil, false, err
 	}
 
-	srv := &http.Server{
+	srv = &http.Server{
 		Addr:           listenAddr(m.port),
 		Handler:        loggingMiddleware(mux),
 		ReadTimeout:    15 * time.Second,
